@@ -106,6 +106,9 @@ def expr(node, c):
         if isinstance(f, ast.Name):
             if f.id == "type" and len(node.args) == 1:
                 return f"({expr(node.args[0], c)}).typeOf"
+            if f.id == "infer_kind" and len(node.args) == 1 and getattr(c, "kind_of", False):
+                a = expr(node.args[0], c)
+                return f"((inferKindT {a}).getD ({a}).typeOf)"
             if f.id == "isinstance" and len(node.args) == 2:
                 return f"(Kind.isInstanceAny ({expr(node.args[0], c)}).typeOf {kinds_tuple(node.args[1])})"
             if f.id == "issubclass" and len(node.args) == 2:
@@ -249,13 +252,16 @@ def translate_typing(src):
         f = find_func(tree, pname, "DataType")
         c = Ctx("self")
         out.append(f"/-- translated from `DataType.{pname}` -/\ndef {lname} (self : DType) : Bool :=\n" + block(f.body, c))
-    f = find_func(tree, "promote_with", "DataType")
-    c = Ctx("self", properties=props)
-    out.append("/-- translated from `DataType.promote_with` -/\ndef promoteWithT (self : DType) (value : Tag) : DType :=\n" + block(f.body, c))
     f = find_func(tree, "infer_kind")
     c = Ctx()
     out.append("/-- translated from `infer_kind` (Python's `None` result is `none`) -/\ndef inferKindT (value : Tag) : Option Kind :=\n"
                + block(f.body, c, ret_wrap=lambda e: e if e == "none" else f"some ({e})"))
+    f = find_func(tree, "promote_with", "DataType")
+    c = Ctx("self", properties=props)
+    # `infer_kind(x)` used as a class (after the `is None` case has returned): the class it names; for None (unreachable there)
+    # the translation falls back on `type(x)`
+    c.kind_of = True
+    out.append("/-- translated from `DataType.promote_with` -/\ndef promoteWithT (self : DType) (value : Tag) : DType :=\n" + block(f.body, c))
     f = find_func(tree, "validate_scalar")
     # validate_scalar returns the (possibly coerced) value or raises TypeError: translate to "accepts?"
     out.append("/-- translated from `validate_scalar`: `true` = returns, `false` = raises TypeError -/\n"
